@@ -201,7 +201,28 @@ func ruleOwn(p *Prog, r *RuleResult) {
 			default:
 				switch x := v.(type) {
 				case *ssa.Call:
-					if h := x.Call.StaticCallee(); returnsFresh(h) && inLoop(x) {
+					_, isSliceField := fv.Type().Underlying().(*types.Slice)
+					if isPkgFunc(&x.Call, "slices", "Clone") || isPkgFunc(&x.Call, "maps", "Clone") || isPkgFunc(&x.Call, "bytes", "Clone") ||
+						(isSliceField && returnsFresh(x.Call.StaticCallee()) && !inLoop(x)) {
+						// a copy made for this batch (or this task): nobody else holds it; tasks must not write its elements
+						wr := false
+						for _, fn := range append([]*ssa.Function{s.fn}, s.fn.AnonFuncs...) {
+							eachInstr(fn, func(i ssa.Instruction) {
+								if ia, ok := i.(*ssa.IndexAddr); ok && fieldVarOfLoad(ia.X) == fv {
+									for _, ref := range *ia.Referrers() {
+										if sto, ok := ref.(*ssa.Store); ok && sto.Addr == ssa.Value(ia) {
+											wr = true
+										}
+									}
+								}
+							})
+						}
+						if wr {
+							r.fail(key, pos, fmt.Sprintf("task field %s is shared by all tasks and written in task code", fv.Name()))
+						} else {
+							r.ok(key+": shared-immutable (cloned copy, no element store in task code)", pos)
+						}
+					} else if h := x.Call.StaticCallee(); returnsFresh(h) && inLoop(x) {
 						r.ok(key+": fresh per task (returned by "+h.Name()+", which allocates it, inside the task loop)", pos)
 					} else {
 						r.fail(key, pos, fmt.Sprintf("unclassified shared state: task field %s is produced by a call that is not known to return a fresh object per task", fv.Name()))
